@@ -43,6 +43,9 @@ class Res:
         self.samples = []
         self.extra = Counter()  # free-form counters (branch hits, ...)
         self.caps = []
+        self.keyset = set()  # 64-bit hashes of canonical states, for a global distinct count across shards
+        self.digests = {}  # name -> hex digest; must coincide across PYTHONHASHSEED runs
+        self.groups = {}  # key -> {signature: example}; merged across shards (canonical-equality classes)
 
     def sample(self, case):
         if len(self.samples) < 3:
@@ -61,6 +64,13 @@ class Res:
         self.nviol.update(other.nviol)
         self.extra.update(other.extra)
         self.caps.extend(other.caps)
+        self.keyset |= other.keyset
+        for k, v in other.digests.items():
+            self.digests.setdefault(k, v)
+        for k, v in other.groups.items():
+            g = self.groups.setdefault(k, {})
+            for sig, ex in v.items():
+                g.setdefault(sig, ex)
         for v in other.violations:
             kept = sum(
                 1 for w in self.violations if w["clause"] == v["clause"] and w["finding"] == v["finding"]
@@ -130,6 +140,13 @@ def explore(prop_id, tier, seed, child=False):
             for v in r.violations:
                 if isinstance(v.get("input"), dict):
                     v["input"].setdefault("PYTHONHASHSEED", hs)
+            for k, d in r.digests.items():
+                if k in total.digests and total.digests[k] != d:
+                    total.violation(
+                        "hash_seed",
+                        {"digest": k, "PYTHONHASHSEED": hs},
+                        f"outputs of {k} differ between PYTHONHASHSEED={hash_seeds[tier][0]} and {hs}",
+                    )
             total.merge(r)
             total.extra[f"hashseed_{hs}_transitions"] += r.transitions
         return mod, total, len(shards) * len(hash_seeds[tier])
@@ -213,6 +230,10 @@ def main(argv=None):
 
     t0 = time.time()
     mod, total, nshards = explore(prop_id, tier, seed)
+    if hasattr(mod, "finalize"):
+        mod.finalize(total, tier)
+    if total.keyset:
+        total.states = len(total.keyset)
     wall = time.time() - t0
     known = load_known(prop_id)
 
